@@ -119,6 +119,23 @@ def make_wcs(ndim, rng):
     return w
 
 
+def fits_card_truncation(v):
+    """What is left of a float written as a fixed-format FITS header value (at most 20 characters; the mantissa is
+    cut, the exponent kept); None if the number fits or is not a float."""
+    try:
+        f = float(v)
+    except Exception:
+        return None
+    if isinstance(v, (int, np.integer)) or f != f or f in (float('inf'), float('-inf')):
+        return None
+    s = repr(f).upper()
+    if len(s) <= 20:
+        return None
+    i = s.find('E')
+    s = s[:20] if i < 0 else s[:20 - (len(s) - i)] + s[i:]
+    return float(s)
+
+
 def compare_loaded(case, d, d2, fmt, had_wcs):
     """The C09 statement on one round trip; returns (failures, known-finding tags)."""
     fails, tags = [], []
@@ -132,7 +149,10 @@ def compare_loaded(case, d, d2, fmt, had_wcs):
         fails.append('label map differs after the round trip')
     for k in ('min_value', 'min_delta', 'min_npix'):
         if k not in d2.params or d2.params[k] != d.params[k]:
-            fails.append('parameter %s: %r -> %r' % (k, d.params.get(k), d2.params.get(k)))
+            if fmt == 'fits' and k in d2.params and fits_card_truncation(d.params[k]) == d2.params[k]:
+                tags.append('K6')       # exactly what a 20-character FITS header value keeps of this number
+            else:
+                fails.append('parameter %s: %r -> %r' % (k, d.params.get(k), d2.params.get(k)))
     if d2.n_dim != d.n_dim:
         fails.append('n_dim %r -> %r' % (d.n_dim, d2.n_dim))
     if had_wcs:
@@ -196,6 +216,10 @@ def rng_choice_ext_hdf5():
     return '.hdf5' if _ext_toggle[0] % 3 else '.h5'
 
 
+TAG_TEXT = {'K3': 'FITS load turns wcs=None into a blank WCS object',
+            'K6': 'FITS header keeps only 20 characters of a float parameter: min_value / min_delta come back truncated'}
+
+
 def explore(ctx):
     rng = ctx.rng('c09')
     nterms, nmeta = [], []
@@ -210,6 +234,10 @@ def explore(ctx):
                 c = gen.rand_case(rng, maxpix=30, allow_user=False)       # incl. integer dtypes
                 if c.get('minv') is not None and rng.random() < 0.7:
                     c['minv'] = None
+            if c.get('dtype', 'float64') == 'float64' and not c.get('den') and rng.random() < 0.15:
+                # the same integers on a very fine grid: parameters like 3 * 2**-40 need 17 significant digits
+                c['scale'] = rng.choice([30, 40, 45])
+                ctx.count('fine_grid_parameters')
             try:
                 d = impl.run_compute(c)
             except Exception as e:
@@ -241,8 +269,8 @@ def explore(ctx):
             fails, tags = compare_loaded(c, d, d2, fmt, had_wcs)
             key = (fmt, how, tuple(c['vals']), tuple(c['shape']), str(history)) if len(d) >= 3 else None
             ctx.case_done(c, key, sample=info if key else None)
-            for tg in tags:
-                ctx.oracle_failure(info, ['FITS load turns wcs=None into a blank WCS object'], {'tag': tg})
+            for tg in sorted(set(tags)):
+                ctx.oracle_failure(info, [TAG_TEXT[tg]], {'tag': tg})
             if fails:
                 ctx.oracle_failure(info, fails, {})
                 continue
@@ -383,8 +411,8 @@ def format_table(ctx, tmpdir):
 
 def matches_known(k, case, fails, extra):
     extra = extra or {}
-    if k['id'] == 'K3':
-        return extra.get('tag') == 'K3'
+    if k['id'] in ('K3', 'K6'):
+        return extra.get('tag') == k['id']
     return False
 
 
